@@ -32,6 +32,13 @@ def program_cases(thorough):
     out += [('C13', s.case) for s in c13.gen_buffers(False)[:6]]
     out += [('C16', p.case) for p in c16.gen((1,), (1, 3), [(3, 5)], c16.SETTINGS, ['redef_add', 'fill_rec'], (0, 1))]
     out += [('C11', c11.mkcase(p, np)) for p in c11.PROGRAMS for np in (1, 2)]
+    # valid but unusual files (C04): one record variable of every type, variables with 17-30 dimensions
+    import checks.c04 as c04
+    for ver in (1, 5):
+        for kind in ['manydims'] + ['onerec-%d' % xt for xt in ([2, 3] + ([7, 8, 11] if ver == 5 else []))]:
+            f = c04.mkfile_schema(ver, kind); cdf.layout(f); data = c04.gen_data(f); raw = cdf.encode(f, data)
+            for np in (1, 2): out.append(('C04', c04.build_case('SAN-v%d-%s-np%d' % (ver, kind, np), raw, f, data, np, 64 if np == 2 else None)[0]))
+    import checks.c17 as c17
     if thorough:
         out += [('C15', x[0]) for x in c15.build_cases('d2', 1, 0, 'vars', False, list(c15.tuples_for([2, 3], False))) + c15.build_cases('rec', 1, 1, 'vars', True, list(c15.tuples_for([2, 2], False)))]
         out += [('C01', s.case) for s in c01.gen_T2(5, c01.SHAPES, [l[0] for l in c01.LAYOUTS])]
